@@ -719,6 +719,35 @@ func c14History(c *Ctx) {
 			}
 		}
 	}
+	// ---- key markers that are no key: beyond the last key nothing remains; between keys the rest is listed
+	if !dead {
+		for _, km := range []string{"zzzz", "c", "d/xx", "0"} {
+			line, uo := r.MpUploads(bucket, false, "", false, "", km, "", "1000", 1000)
+			r.judgeProj(line, uo.Obs, "c14:uploads-marker-absent", ident, nil)
+			if !uo.OK {
+				break
+			}
+			c.R.Evaluations++
+			var want []string
+			for _, u := range ups {
+				if u.key >= km {
+					want = append(want, u.key)
+				}
+			}
+			sort.Strings(want)
+			var gotKeys []string
+			for _, it := range uo.Items {
+				gotKeys = append(gotKeys, strings.SplitN(it, ":", 2)[0])
+			}
+			if uo.Trunc || len(uo.Items) != len(want) {
+				c.mismatch(Mismatch{Kind: "spec", Backend: "mem", Case: append([]string{}, r.Lines...), Finger: "c14:uploads-marker-absent",
+					Impl: fmt.Sprintf("key-marker=%q (no such key): IsTruncated=%v NextKeyMarker=%q uploads=%v", km, uo.Trunc, uo.NextKey, uo.Items),
+					Spec: fmt.Sprintf("exactly the %d uploads of the keys from the marker on, not truncated", len(want))})
+				dead = true
+				break
+			}
+		}
+	}
 	// ---- ListParts walks
 	for _, u := range ups {
 		if dead {
